@@ -11,9 +11,18 @@ import json, os, subprocess, sys
 ROOT = os.path.dirname(os.path.dirname(os.path.abspath(__file__)))
 checks = json.load(open(os.path.join(ROOT, "bin/checks.json")))
 import glob
+# Fragments written by harness authors.  All of them are dispatchable (properties.map), but only
+# crates listed in bin/accepted_crates.txt (reviewed, run on the unchanged tree) enter MANIFEST.json.
+accepted = set(open(os.path.join(ROOT, "bin/accepted_crates.txt")).read().split()) if os.path.exists(os.path.join(ROOT, "bin/accepted_crates.txt")) else set()
+pending = {}
 for frag in sorted(glob.glob(os.path.join(ROOT, "harness/vh-*/checks.json"))):
     try:
-        checks.update(json.load(open(frag)))
+        d = json.load(open(frag))
+        crate = os.path.basename(os.path.dirname(frag))
+        if crate in accepted:
+            checks.update(d)
+        else:
+            pending.update(d)
     except Exception as e:
         print("bad fragment", frag, e)
 na_path = os.path.join(ROOT, "bin/not_applicable.json")
@@ -88,6 +97,9 @@ for name, pids in engines.items():
     manifest["engines"].append({"name": name, "path": path, "serves_properties": pids, "kind_free_text": kind})
 
 json.dump(manifest, open(os.path.join(ROOT, "MANIFEST.json"), "w"), indent=1)
+for pid, c in pending.items():
+    if pid not in checks:
+        lines.append(f"{pid} {c['crate']}")
 open(os.path.join(ROOT, "bin/properties.map"), "w").write("\n".join(lines) + "\n")
 
 # validate
